@@ -163,6 +163,66 @@ fn seed_bytes(seed: u64, id: &str, family: &str, chunk: u64) -> [u8; 32] {
     out
 }
 
+// ---------------------------------------------------------------------------------------------
+// watchdog: a call of the code under test that does not return (e.g. a sort that never terminates because the event
+// order became inconsistent) must not hang the check. Wall-clock expiry is *inconclusive* (exit 2), never a violation.
+
+pub const WATCH_SLOTS: usize = 64;
+/// per worker: (start of the current evaluation in ms since process start, or 0), (plan index << 40 | chunk << 24 | case ordinal)
+pub static WATCH: [(std::sync::atomic::AtomicU64, std::sync::atomic::AtomicU64); WATCH_SLOTS] = {
+    #[allow(clippy::declare_interior_mutable_const)]
+    const Z: (std::sync::atomic::AtomicU64, std::sync::atomic::AtomicU64) = (std::sync::atomic::AtomicU64::new(0), std::sync::atomic::AtomicU64::new(0));
+    [Z; WATCH_SLOTS]
+};
+static NEXT_SLOT: AtomicUsize = AtomicUsize::new(0);
+thread_local! { static MY_SLOT: usize = NEXT_SLOT.fetch_add(1, Ordering::SeqCst) % WATCH_SLOTS; }
+
+fn process_start() -> std::time::Instant {
+    use std::sync::OnceLock;
+    static T0: OnceLock<std::time::Instant> = OnceLock::new();
+    *T0.get_or_init(std::time::Instant::now)
+}
+
+pub fn watch_begin(info: u64) {
+    let ms = process_start().elapsed().as_millis() as u64 + 1;
+    MY_SLOT.with(|s| {
+        WATCH[*s].1.store(info, Ordering::Relaxed);
+        WATCH[*s].0.store(ms, Ordering::Relaxed);
+    });
+}
+
+pub fn watch_end() {
+    MY_SLOT.with(|s| WATCH[*s].0.store(0, Ordering::Relaxed));
+}
+
+/// spawn the watchdog: `per_case_s` for one evaluation, `total_s` for the whole run
+pub fn spawn_watchdog(id: String, per_case_s: u64, total_s: u64) {
+    process_start();
+    std::thread::spawn(move || loop {
+        std::thread::sleep(std::time::Duration::from_secs(2));
+        let now = process_start().elapsed().as_millis() as u64 + 1;
+        if now / 1000 > total_s {
+            println!("INCONCLUSIVE: property={} the run exceeded its wall-clock limit of {} s", id, total_s);
+            std::process::exit(2);
+        }
+        for slot in WATCH.iter() {
+            let start = slot.0.load(Ordering::Relaxed);
+            if start != 0 && now > start && (now - start) / 1000 > per_case_s {
+                let info = slot.1.load(Ordering::Relaxed);
+                println!(
+                    "INCONCLUSIVE: property={} one evaluation did not return within {} s (plan #{} chunk {} case ordinal {}; deterministic for the same VERIF_SEED): a call of the code under test probably does not terminate",
+                    id,
+                    per_case_s,
+                    info >> 40,
+                    (info >> 24) & 0xffff,
+                    info & 0xff_ffff
+                );
+                std::process::exit(2);
+            }
+        }
+    });
+}
+
 pub fn threads() -> usize {
     std::env::var("VERIF_THREADS").ok().and_then(|s| s.parse().ok()).unwrap_or(16)
 }
@@ -274,7 +334,7 @@ pub fn run_plans<D: std::fmt::Debug + Clone>(id: &str, seed: u64, plans: &[Plan<
                         break;
                     }
                     let (fi, chunk, n) = jobs[j];
-                    let (st, viol) = run_chunk(id, seed, &plans[fi], chunk, n, &stop, chunk == 0);
+                    let (st, viol) = run_chunk(id, seed, &plans[fi], fi, chunk, n, &stop, chunk == 0);
                     if viol.is_some() {
                         stop.store(true, Ordering::SeqCst);
                     }
@@ -293,9 +353,10 @@ pub fn run_plans<D: std::fmt::Debug + Clone>(id: &str, seed: u64, plans: &[Plan<
     }
 }
 
-fn run_chunk<D: std::fmt::Debug + Clone>(id: &str, seed: u64, plan: &Plan<D>, chunk: u64, n: u64, stop: &AtomicBool, sample: bool) -> (Stats, Option<Violation>) {
+fn run_chunk<D: std::fmt::Debug + Clone>(id: &str, seed: u64, plan: &Plan<D>, plan_index: usize, chunk: u64, n: u64, stop: &AtomicBool, sample: bool) -> (Stats, Option<Violation>) {
     let mut stats = Stats::default();
     let failed = std::cell::Cell::new(false);
+    let ordinal = std::cell::Cell::new(0u64);
     let config = Config { cases: n as u32, failure_persistence: None, max_shrink_iters: 2048, max_global_rejects: 1_000_000, ..Config::default() };
     let rng = TestRng::from_seed(RngAlgorithm::ChaCha, &seed_bytes(seed, id, plan.name, chunk));
     let mut runner = TestRunner::new_with_rng(config, rng);
@@ -306,7 +367,10 @@ fn run_chunk<D: std::fmt::Debug + Clone>(id: &str, seed: u64, plan: &Plan<D>, ch
             return Ok(());
         }
         let counting = !failed.get();
+        ordinal.set(ordinal.get() + 1);
+        watch_begin(((plan_index as u64) << 40) | ((chunk & 0xffff) << 24) | (ordinal.get() & 0xff_ffff));
         let mut e = (plan.eval)(&desc, counting && sample);
+        watch_end();
         let r = std::mem::replace(&mut e.result, Ok(()));
         if counting {
             stats_cell.borrow_mut().record_eval(e, if sample { 2 } else { 0 });
@@ -409,7 +473,9 @@ pub fn run_indexed_g<D: std::fmt::Debug + Clone>(id: &str, label: &str, total: u
                             Some(d) => d,
                             None => continue,
                         };
+                        watch_begin((0xffu64 << 40) | (i & 0xff_ffff));
                         let mut e = (plan.eval)(&desc, b == 0);
+                        watch_end();
                         let r = std::mem::replace(&mut e.result, Ok(()));
                         let digest = e.digest;
                         st.record_eval(e, if b == 0 { 1 } else { 0 });
